@@ -128,7 +128,8 @@ func c10World(t *testing.T, r *simcore.Run) any {
 	var genuineResp *simnet.Datagram    // genuine response of the current attempt
 	var prevResp []byte                 // a genuine response to an earlier request (for replays)
 	var tamper func(genuine []byte) ([]byte, string, bool)
-	var injected *simnet.Datagram
+	var injected, injected2 *simnet.Datagram
+	twice := false
 	curKind := ""
 	var trailing []byte
 	trailingOK := false
@@ -168,6 +169,13 @@ func c10World(t *testing.T, r *simcore.Run) any {
 		}
 		injected = net.NewDatagram(d.Src, d.Dst, wrapped, "tampered response")
 		r.Fault("response:" + curKind)
+		if twice {
+			// the tampered copy arrives twice (the second uses up the client's single retry), and the
+			// genuine response does not arrive at all: the exchange must fail
+			injected2 = net.NewDatagram(d.Src, d.Dst, append([]byte(nil), wrapped...), "tampered response, again")
+			r.Fault("response-twice:" + curKind)
+			return []simnet.Route{{D: injected, Delay: 60 * time.Microsecond}, {D: injected2, Delay: 90 * time.Microsecond}}, true
+		}
 		return []simnet.Route{{D: injected, Delay: 60 * time.Microsecond}, {D: d, Delay: 200 * time.Microsecond}}, true
 	}
 
@@ -300,6 +308,8 @@ func c10World(t *testing.T, r *simcore.Run) any {
 			must := true
 			skip := false
 			curKind = c.kind
+			twice = mode == "sampled" && tp.Bool(1, 4, "twice")
+			injected2 = nil
 			tamper = func(g []byte) ([]byte, string, bool) {
 				switch c.kind {
 				case "bit":
@@ -446,7 +456,7 @@ func c10World(t *testing.T, r *simcore.Run) any {
 			if skip || injected == nil {
 				continue
 			}
-			accepted := err == nil && lastClosedRecv != nil && lastClosedRecv.ID == injected.ID
+			accepted := err == nil && lastClosedRecv != nil && (lastClosedRecv.ID == injected.ID || (injected2 != nil && lastClosedRecv.ID == injected2.ID))
 			// whatever the NTP layer does afterwards: nothing unauthenticated may end up in the pool
 			pool := tr.fetcher().VerifData().Cookie
 			if len(pool) > 8 {
